@@ -587,13 +587,15 @@ impl ObjValue {
 
 	fn get_idx(&self, key: IStr, core: CoreIdx) -> Result<Option<Val>> {
 		let cache_key = (key.clone(), core);
-		if let Some(CacheValue::Cached(v)) = self.0.value_cache.borrow().get(&cache_key) {
-			return v.clone();
-		}
 		// Assertions run before the first field is computed, and they may read this very field
 		// (`{ assert self.a, a: .. }.a`): run them before the field is marked as pending, so that
 		// their read computes and caches it once instead of the field being computed a second time.
+		// They also run before the cache is consulted: a field cached by a failed assertion run should
+		// not be served by later reads of the same object, the failure is reported again instead.
 		self.run_assertions()?;
+		if let Some(CacheValue::Cached(v)) = self.0.value_cache.borrow().get(&cache_key) {
+			return v.clone();
+		}
 		let mut _reentry_guard = None;
 		{
 			let mut cache = self.0.value_cache.borrow_mut();
